@@ -665,6 +665,114 @@ theorem pipeline_entries (s : Screen) (pid : Nat) (batch : List Int) (n : Nat) (
   simp only [Function.comp_def, hent i hi']
   exact htot i (inp i)
 
+/-! ### the tie-break: `np.argmin` returns the first minimum -/
+
+/-- the order on scores is total: something strictly below `b` is strictly below everything that is not below `b` -/
+theorem Score.lt_of_lt_of_not_lt {y b x : Score} (h1 : y.lt b = true) (h2 : x.lt b = false) : y.lt x = true := by
+  cases y <;> cases b <;> cases x <;> simp_all [Score.lt]
+  rename_i p q r
+  -- p < q, ¬ r < q  ⊢ p < r
+  exact Rat.not_le.mp (fun hrp => (Rat.not_le.mpr h1) (Rat.le_trans (Rat.not_lt.mp h2) hrp))
+
+/-- `np.argmin` returns the FIRST minimum: every earlier element is strictly larger -/
+theorem argminGo_first (pre : List Score) (b : Score) (bi : Nat) (ys : List Score)
+    (hbi : pre[bi]? = some b) (hmin : ∀ y ∈ pre, y.lt b = false)
+    (hfirst : ∀ j w, j < bi → pre[j]? = some w → b.lt w = true) :
+    ∃ v, (pre ++ ys)[argminGo bi b pre.length ys]? = some v ∧
+      ∀ j w, j < argminGo bi b pre.length ys → (pre ++ ys)[j]? = some w → v.lt w = true := by
+  induction ys generalizing pre b bi with
+  | nil =>
+    refine ⟨b, by simpa [argminGo] using hbi, ?_⟩
+    intro j w hj hw
+    simp only [argminGo, List.append_nil] at hj hw
+    exact hfirst j w hj hw
+  | cons y ys ih =>
+    have hlt : bi < pre.length := by
+      rcases Nat.lt_or_ge bi pre.length with h | h
+      · exact h
+      · rw [List.getElem?_eq_none h] at hbi; cases hbi
+    unfold argminGo
+    split
+    · next hy =>
+      have := ih (pre ++ [y]) y pre.length (by simp) (by
+        intro z hz
+        rcases List.mem_append.mp hz with hz | hz
+        · cases hzy : z.lt y with
+          | false => rfl
+          | true => have := Score.lt_trans hzy hy; rw [hmin z hz] at this; cases this
+        · simp at hz; subst hz; exact Score.lt_irrefl _) (by
+        intro j w hj hw
+        rw [List.getElem?_append_left hj] at hw
+        exact Score.lt_of_lt_of_not_lt hy (hmin w (List.mem_of_getElem? hw)))
+      simpa [List.append_assoc] using this
+    · next hy =>
+      have := ih (pre ++ [y]) b bi (by rw [List.getElem?_append_left hlt]; exact hbi) (by
+        intro z hz
+        rcases List.mem_append.mp hz with hz | hz
+        · exact hmin z hz
+        · simp at hz; subst hz; simpa using hy) (by
+        intro j w hj hw
+        rw [List.getElem?_append_left (by omega)] at hw
+        exact hfirst j w hj hw)
+      simpa [List.append_assoc] using this
+
+theorem argmin?_first (xs : List Score) (i : Nat) (h : argmin? xs = some i) :
+    ∃ v, xs[i]? = some v ∧ (∀ y ∈ xs, y.lt v = false) ∧ ∀ j w, j < i → xs[j]? = some w → v.lt w = true := by
+  obtain ⟨v, hv, hmin⟩ := argmin?_spec xs i h
+  cases xs with
+  | nil => simp [argmin?] at h
+  | cons x xs =>
+    simp only [argmin?, Option.some.injEq] at h
+    subst h
+    obtain ⟨v', hv', hf⟩ := argminGo_first [x] x 0 xs (by simp) (by intro y hy; simp at hy; subst hy; exact Score.lt_irrefl _)
+      (by intro j w hj; omega)
+    simp only [List.length_cons, List.length_nil, Nat.zero_add, List.cons_append, List.nil_append] at hv' hf
+    rw [hv] at hv'; cases hv'
+    exact ⟨v, hv, hmin, hf⟩
+
+theorem plateIdWithMinimumScore_eq (h : Holder) (hw : HolderWF h) (a : List Int) :
+    h.plateIdWithMinimumScore (some a) =
+      (match argmin? ((h.entries.filter (fun e => a.contains e.1)).map Prod.snd) with
+       | none => .error .valueError
+       | some i => match ((h.entries.filter (fun e => a.contains e.1)).map Prod.fst)[i]? with
+         | some p => .ok p
+         | none => .error .indexError) := by
+  have hids := maskFilter_map_fst h.plateIds h.scores (fun p => a.contains p) hw
+  have hsc := maskFilter_map_snd h.plateIds h.scores (fun p => a.contains p) hw
+  unfold Holder.plateIdWithMinimumScore Holder.entries
+  simp only [hids, hsc]
+  rfl
+
+/-- `plate_id_with_minimum_score(eligible)`: the FIRST cell, in holder order, among the eligible cells of minimal score -/
+theorem plateIdWithMinimumScore_first (h : Holder) (hw : HolderWF h) (a : List Int) (p : Int)
+    (hp : h.plateIdWithMinimumScore (some a) = .ok p) :
+    let E := h.entries.filter (fun e => a.contains e.1)
+    ∃ (i : Nat) (sp : Score), E[i]? = some (p, sp) ∧ (∀ e ∈ E, e.2.lt sp = false) ∧
+      ∀ (j : Nat) (e : Int × Score), j < i → E[j]? = some e → sp.lt e.2 = true := by
+  intro E
+  rw [plateIdWithMinimumScore_eq h hw a] at hp
+  change (match argmin? (E.map Prod.snd) with
+       | none => (Except.error Err.valueError : Except Err Int)
+       | some i => match (E.map Prod.fst)[i]? with
+         | some p => .ok p
+         | none => .error .indexError) = .ok p at hp
+  cases hag : argmin? (E.map Prod.snd) with
+  | none => simp [hag] at hp
+  | some i =>
+    obtain ⟨v, hv, hmin, hf⟩ := argmin?_first _ _ hag
+    rw [List.getElem?_map] at hv
+    cases hEi : E[i]? with
+    | none => simp [hEi] at hv
+    | some e =>
+      simp only [hEi, Option.map_some, Option.some.injEq] at hv
+      simp only [hag, List.getElem?_map, hEi, Option.map_some] at hp
+      cases hp
+      refine ⟨i, e.2, by simp [hEi], ?_, ?_⟩
+      · intro e' he'; rw [hv]; exact hmin e'.2 (List.mem_map_of_mem he')
+      · intro j e' hj he'
+        rw [hv]
+        exact hf j e'.2 hj (by rw [List.getElem?_map, he']; rfl)
+
 /-- what a filtering policy (or no policy) allows is among the candidates -/
 theorem eligible_sub (s : Screen) (policy : Option Policy) (hpol : PolicyFilters policy) (batch : List Int) :
     ∀ x, x ∈ eligible s policy batch → x ∈ candidates s batch := by
